@@ -86,6 +86,26 @@ pub fn events(thorough: bool) -> Vec<Ev> {
             }
         }
     }
+    // a 4-chunk PWB message in which one chunk carries the id of a neighbour (payload in arrival order would be
+    // right under some bank orders and scrambled under others; the id sequence has a hole in every order)
+    {
+        let chans: Vec<(u16, Vec<i16>)> = [4u16, 5, 30].iter().map(|&ro| (ro, pad_samples(ro, 131, 0))).collect();
+        let a = pwb_banks("12", 0, &pwb_payload("12", 0, 131, &chans), 250);
+        if a.len() == 4 {
+            for (which, id, name) in [
+                (2usize, 1u16, "4-chunk PWB message whose chunk 2 carries id 1"),
+                (1, 2, "4-chunk PWB message whose chunk 1 carries id 2"),
+                (3, 2, "4-chunk PWB message whose last chunk carries id 2"),
+                (1, 0, "4-chunk PWB message whose chunk 1 carries id 0"),
+            ] {
+                let mut e: Banks = vec![trg(6)];
+                e.extend(a.iter().cloned());
+                e[1 + which].1[12..14].copy_from_slice(&id.to_le_bytes());
+                crate::refmodel::chunk_fix_crcs(&mut e[1 + which].1);
+                v.push(Ev { name, run: sim, banks: e });
+            }
+        }
+    }
     // the same with real pulses: a wire avalanche and a 3-pad cluster whose waveforms differ between the two copies of
     // the duplicated chunk, so that "which copy survives" would change z and the pad amplitude
     {
